@@ -191,3 +191,6 @@ def show(frags):
         else:
             out.append(fr[0])
     return "[" + ", ".join(out) + "]" if out else "nothing"
+
+
+run_flow = run
